@@ -78,7 +78,7 @@ def lineLoopX (env : Env) (tbl : UInt8 → List XIp) : Nat → Bool → St → E
         | .hit st escaped => lineLoopX env tbl fuel escaped st
         | .eol s => do
           let st ← endOfLine cl.2 p.1 s
-          lineLoopX env tbl fuel s.escaped st
+          lineLoopX env tbl fuel false st
 
 /-- parseBlock over the table `tbl` -/
 def parseBlockX (env : Env) (tbl : UInt8 → List XIp) (src : Bytes) (segs : List Segment) : Except Panic (List Node) := do
